@@ -230,13 +230,17 @@ def writeBack (cl : Level) : List Nat → List Vote → List CellDict → List C
     writeBack cl is vs (res.modify i (fun d => (cl, entryOf v) :: d))
   | _, _, res => res
 
+/-- `chosen_idx`: every row for the root, else
+`previously_assigned[parent_level][node]` if the node is a key, else `[]` -/
+def chosenIdxOf (n : Nat) (prevParent : AssignMap) : Parent → List Nat
+  | none => List.range n
+  | some (_, k) => (prevParent.lookup k).getD []
+
 /-- body of `for parent_node in parent_node_list` -/
 def processParent {κ} (t : RawTree) (vote : Oracle κ) (cells : List κ) (cl : Level)
     (prevParent : AssignMap) (acc : AssignMap × List CellDict) (parent : Parent) :
     Except Err (AssignMap × List CellDict) :=
-  let chosenIdx : List Nat := match parent with
-    | none => List.range cells.length
-    | some (_, k) => (prevParent.lookup k).getD []   -- `if k in previously_assigned[...] else []`
+  let chosenIdx := chosenIdxOf cells.length prevParent parent
   if chosenIdx.isEmpty then .ok acc
   else match t.children parent with
     | .error e => .error (.tree e)
@@ -304,6 +308,37 @@ def runLevelLoop {κ} (t : RawTree) (vote : Oracle κ) (cells : List κ) :
   match levelSteps t vote cells none t.hierarchy [] (cells.map (fun _ => [])) with
   | .error e => .error e
   | .ok res => finishAll t.hierarchy res
+
+/-! ### the well-formedness the theorems assume (decidable; the driver
+evaluates it on every generated tree, the harness checks that it holds whenever
+the real validator accepts the tree and every non-leaf node has a child) -/
+
+/-- children of a parent key, `[]` when `TaxonomyTree.children` raises -/
+def kidsD (t : RawTree) (p : Parent) : List Node :=
+  match t.children p with
+  | .ok k => k
+  | .error _ => []
+
+def disjointB (a b : List Node) : Bool := a.all (fun x => !b.contains x)
+
+/-- `(None, hierarchy[0]), (hierarchy[0], hierarchy[1]), ...` -/
+def levelPairs (t : RawTree) : List (Option Level × Level) :=
+  (none :: t.hierarchy.map some).zip t.hierarchy
+
+/-- for one `(parent_level, child_level)`: the node names of the child level
+are distinct; every parent node has children, all of them nodes of the child
+level; different parents share no child -/
+def levelOK (t : RawTree) (pl : Option Level) (cl : Level) : Bool :=
+  let ps := parentNodeList t pl
+  !RawTree.hasDup (t.nodesAt cl) &&
+  ps.all (fun p =>
+    (match t.children p with
+     | .ok kids => !kids.isEmpty && kids.all (fun c => (t.nodesAt cl).contains c)
+     | .error _ => false) &&
+    ps.all (fun p' => p == p' || disjointB (kidsD t p) (kidsD t p')))
+
+def wfb (t : RawTree) : Bool :=
+  !RawTree.hasDup t.hierarchy && (levelPairs t).all (fun (pl, cl) => levelOK t pl cl)
 
 /-! ### chunking, dispatch, gather (`run_type_assignment_on_h5ad_cpu`) -/
 
